@@ -439,6 +439,47 @@ def r11_6(ctx, rep):
                % (":".join("e%d" % i for i in range(n)), want[1], want[2], want[3], got, why))
 
 
+@SPEC.rule(
+    "R11.7",
+    "for-loop iteration values: ForLoop.__init__ resolves start, step and stop of the range the same way (get_integer) and "
+    "the exclusive bound given to np.arange is stop plus ONE UNIT in the direction of the step (stop + sign(step)) — "
+    "`stop + step` overshoots whenever stop - start is not a multiple of step (1:2:4 would run 1, 3, 5)",
+)
+def r11_7(ctx, rep):
+    R = "R11.7"
+    fn = ctx.func(GEN, "ForLoop.__init__", R)
+    site = GEN + ":ForLoop.__init__"
+    part = {}
+    for st in walk_local(fn):
+        if isinstance(st, ast.Assign) and isinstance(st.targets[0], ast.Name):
+            for a in ast.walk(st.value):
+                if isinstance(a, ast.Attribute) and a.attr in ("start", "step", "stop") and not isinstance(getattr(a, "_parent", None), ast.Attribute):
+                    part.setdefault(a.attr, (st.targets[0].id, st.value))
+                elif isinstance(a, ast.Attribute) and a.attr in ("start", "step", "stop"):
+                    part.setdefault(a.attr, (st.targets[0].id, st.value))
+    if set(part) != {"start", "step", "stop"}:
+        raise MechanismMissing(R, "start/step/stop of the loop range are no longer read in ForLoop.__init__ (found %s)" % sorted(part))
+    how = {k: ("get_integer" if isinstance(v[1], ast.Call) and (call_name(v[1]) or "").endswith("get_integer") else norm(v[1])) for k, v in part.items()}
+    rep.ob(R, site, "range parts resolved uniformly", len(set(how.values())) == 1 and "get_integer" in how.values(),
+           "start, step and stop must all be resolved with get_integer (found %s): a part read as `.value` fails for `for i in k:n`" % how)
+    names = {k: v[0] for k, v in part.items()}
+    ar = [c for c in calls(fn) if (call_name(c) or "").endswith("arange")]
+    if not ar:
+        raise MechanismMissing(R, "np.arange no longer builds the iteration values")
+    c = ar[0]
+    ok, why = False, "np.arange(%s)" % ", ".join(norm(a) for a in c.args)
+    if len(c.args) >= 3 and is_name(c.args[0], names["start"]) and is_name(c.args[2], names["step"]):
+        b = c.args[1]
+        if isinstance(b, ast.BinOp) and isinstance(b.op, ast.Add) and is_name(b.left, names["stop"]):
+            unit = b.right
+            t = norm(unit)
+            signed = any(isinstance(x, ast.Call) and (call_name(x) or "").split(".")[-1] in ("sign", "copysign") for x in ast.walk(unit)) \
+                or (isinstance(unit, ast.IfExp) and {literal(unit.body), literal(unit.orelse)} == {1, -1})
+            ok = signed and not (is_name(unit, names["step"]))
+            why += " — the bound must be %s + sign(%s), found + %s" % (names["stop"], names["step"], t)
+    rep.ob(R, site, "exclusive bound one unit past stop", ok, why)
+
+
 # -- seeded variants ---------------------------------------------------------
 from ._mut import replace_in_func  # noqa: E402
 
@@ -535,3 +576,15 @@ def _m_range(mod):
         return done == 2
 
     return mod if replace_in_func(mod, "ASTListener.exitSimple_expression", edit) else None
+
+
+@SPEC.mutant("loop bound stop + step", GEN, "R11.7", "exclusive bound")
+def _m_bound(mod):
+    def edit(fn):
+        for c in ast.walk(fn):
+            if isinstance(c, ast.Call) and (call_name(c) or "").endswith("arange") and len(c.args) >= 3 and isinstance(c.args[1], ast.BinOp):
+                c.args[1].right = ast.Name(id=c.args[2].id, ctx=ast.Load())
+                return True
+        return False
+
+    return mod if replace_in_func(mod, "ForLoop.__init__", edit) else None
